@@ -124,10 +124,10 @@ HEADER = ('From Coq Require Import ZArith List Bool.\nImport ListNotations.\n'
           'Local Open Scope Z_scope.\nSet Printing Width 100000.\nSet Printing Depth 100000.\n')
 
 
-def coq_check(ctx, name, items, kind='cases'):
+def coq_check(ctx, name, items, kind='cases', extra=''):
     """items: list of Coq terms (id, list nat).  Returns {id: [codes]} of the
     failing ones, or None when the file does not compile."""
-    txt = [HEADER, 'Definition cases : list (nat * list nat) := [', ';\n'.join(items), '].',
+    txt = [HEADER + extra, 'Definition cases : list (nat * list nat) := [', ';\n'.join(items), '].',
            'Goal True. idtac "@@ failing". Abort.',
            'Eval vm_compute in filter (fun c => match snd c with [] => false | _ => true end) cases.']
     rc, out, err = ctx.coq_eval(name, '\n'.join(txt) + '\n', timeout=1200)
@@ -321,6 +321,37 @@ def ecase_of(c, cid, types):
             'final': None if cur is None else [cur[t] for t in types if t in cur]}
 
 
+def gen_dcases(ctx, n, types):
+    """collections whose blocks have colliding element ids (each block's own ids distinct):
+    the `_unique_element_ids` branch.  Drawn after every other stream."""
+    rng = ctx.rng
+    fixed = [t for t in types if t in WIDTH]
+    out = []
+    for cid in range(n):
+        names = rng.sample(fixed, rng.choice([2, 2, 3, 4]))
+        hi = rng.choice([4, 6, 9])
+        blocks = []
+        for t in names:
+            ids = rng.sample(range(1, hi + 1), rng.choice([1, 2, 3]))
+            blocks.append([t, ids, [[rng.randrange(1, 500) for _ in range(WIDTH[t])] for _ in ids]])
+        allids = [i for bl in blocks for i in bl[1]]
+        if len(set(allids)) == len(allids):
+            blocks[-1][1][0] = blocks[0][1][0]           # force one collision
+            if len(set(blocks[-1][1])) != len(blocks[-1][1]):
+                blocks[-1][1] = [blocks[0][1][0]]
+                blocks[-1][2] = blocks[-1][2][:1]
+        out.append({'id': cid, 'blocks': blocks})
+    return out
+
+
+def dcase_l(c, r, writable):
+    sl = lambda xs: '[' + ';'.join(st(x) for x in xs) + ']'    # noqa
+    ob = '{|d_raised:=%s;d_ids:=%s;d_types:=%s;d_data:=%s;d_block_ids:=%s|}' % (
+        b(r.get('raised')), zl(r.get('ids', [])), sl(r.get('types', [])), rows_l(r.get('data', [])),
+        '[' + ';'.join(f'({st(t)},{zl(v)})' for t, v in r.get('block_ids', [])) + ']')
+    return f'({c["id"]}%nat, check_dup {b(writable)} 60%nat {dict_l(c["blocks"])} {ob})'
+
+
 def st(x):
     return '"' + re.sub(r'[^A-Za-z0-9_-]', '?', str(x)) + '"%string'
 
@@ -467,7 +498,7 @@ def main(ctx):
     # 2. proofs
     proof_ok = False
     if tie_ok:
-        proof_ok, log = ctx.build_props('C08/Props.v', extra_targets=['C08/Corr.vo'])
+        proof_ok, log = ctx.build_props('C08/Props.v', extra_targets=['C08/Corr.vo', 'C08/CorrDup.vo'])
         if not proof_ok:
             ctx.notes['build_log_tail'] = log[-1500:]
         elif ctx.tier == 'thorough' and hasattr(ctx, 'coqchk'):
@@ -480,7 +511,7 @@ def main(ctx):
                                     'note': 'translator failed closed'})
         # keep the last good configuration for the model so that the
         # correspondence and the search still run
-        ok, _, _ = lib.coq_make(['C08/Corr.vo', 'C08/gen/AttrCfg.vo', 'C08/gen/ElemTypes.vo'])
+        ok, _, _ = lib.coq_make(['C08/Corr.vo', 'C08/CorrDup.vo', 'C08/gen/AttrCfg.vo', 'C08/gen/ElemTypes.vo'])
 
     # 3. cases: corpus first, then the model's witnesses, then random histories
     cases = []
@@ -502,10 +533,11 @@ def main(ctx):
     ecases = gen_ecases(ctx, n_el, types)
     for c in ecorpus:           # corpus collections run first (ids after the random ones)
         ecases.insert(0, ecase_of(c, len(ecases), types))
-    res = run_impl(ctx, {'cases': cases, 'ecases': ecases})
+    dcases = gen_dcases(ctx, 40 if quick else 300, types)      # drawn last: the other streams are unchanged
+    res = run_impl(ctx, {'cases': cases, 'ecases': ecases, 'dcases': dcases})
     results = {r['id']: r for r in res['cases']}
     eresults = {r['id']: r for r in res['ecases']}
-    herr = [r for r in res['cases'] + res['ecases'] if 'error' in r]
+    herr = [r for r in res['cases'] + res['ecases'] + res.get('dcases', []) if 'error' in r]
     if herr:
         ctx.notes['harness_errors'] = [h['error'][-400:] for h in herr[:3]]
         ctx.log('harness errors:', len(herr), herr[0]['error'][-600:])
@@ -527,7 +559,22 @@ def main(ctx):
             ebad.update(o)
         else:
             bad.update(o)
-    ctx.corr = {'cases': len(good) + len(egood), 'attribute_histories': len(good),
+    # colliding element ids (the _unique_element_ids branch): model = Renumber.update_self_fuel with
+    # the environment fact `writable` probed on the implementation
+    dres = {r['id']: r for r in res.get('dcases', [])}
+    writable = bool(res.get('ids_writable'))
+    ctx.notes['ids_inplace_add_writable'] = writable
+    dgood = [c for c in dcases if c['id'] in dres and 'error' not in dres[c['id']]]
+    dbad = coq_check(ctx, 'DCorr0', [dcase_l(c, dres[c['id']], writable) for c in dgood],
+                     extra='From FV.C08 Require Import Renumber CorrDup.\n') if dgood else {}
+    if dbad is None:
+        compile_fail += 1
+        dbad = {}
+    for c in dgood:
+        ctx.count('duplicate-ids:' + ('raises' if dres[c['id']].get('raised') else 'renumbered'))
+        ctx.case(['d', c['blocks']], nontrivial=True)
+    ctx.corr = {'cases': len(good) + len(egood) + len(dgood), 'duplicate_id_collections': len(dgood),
+                'duplicate_id_disagreements': len(dbad), 'attribute_histories': len(good),
                 'element_collections': len(egood), 'disagreements': len(bad) + len(ebad),
                 'scratch_files_not_compiling': compile_fail,
                 'steps_compared': sum(len(results[c['id']]['steps']) + 1 for c in good)}
@@ -637,6 +684,12 @@ def main(ctx):
                       {'codes': codes, 'impl': eresults[cid]}, 'correspondence C08 (Corr.check_summary)',
                       found_input=True,
                       signature={'kind': 'correspondence-collection', 'codes': str(codes)})
+    for cid, codes in sorted(dbad.items())[:3]:
+        c = next(x for x in dcases if x['id'] == cid)
+        ctx.violation('correspondence', {'dup_blocks': c['blocks'], 'ids_writable': writable},
+                      'model and implementation agree on collections with colliding element ids',
+                      {'codes': codes, 'impl': dres[cid]}, 'correspondence C08 (CorrDup.check_dup)',
+                      found_input=True, signature={'kind': 'correspondence-duplicate-ids', 'codes': str(codes)})
     if compile_fail:
         ctx.violation('correspondence', {'files': compile_fail}, 'scratch files compile', 'coqc failed',
                       'correspondence C08', found_input=False, signature={'kind': 'corr-compile'})
